@@ -33,9 +33,9 @@ let parse_cfg cfg toks =
   | "pair" :: id :: i :: o :: inter :: op :: em :: [] ->
     { cfg with c_pairs = cfg.c_pairs @ [ (z id, { pr_id = z id; pr_in = z i; pr_out = z o; pr_inter = bool_of_tok inter;
                                                 pr_out_pool = z op; pr_emode = bool_of_tok em }) ] }
-  | "rates" :: id :: ltv :: eltv :: c :: st :: iso :: [] ->
+  | "rates" :: id :: ltv :: eltv :: c :: st :: iso :: pen :: epen :: [] ->
     { cfg with c_rates = cfg.c_rates @ [ (z id, { r_asset = z id; r_ltv = z ltv; r_eltv = z eltv; r_casset = z c;
-                                                r_stable = bool_of_tok st; r_isolated = bool_of_tok iso }) ] }
+                                                r_stable = bool_of_tok st; r_isolated = bool_of_tok iso; r_pen = z pen; r_epen = z epen }) ] }
   | "a2p" :: a :: p :: rest -> let (ids, _) = take_list rest in { cfg with c_a2p = cfg.c_a2p @ [ ((z a, z p), ids) ] }
   | "app" :: id :: b :: [] -> { cfg with c_apps = cfg.c_apps @ [ (z id, bool_of_tok b) ] }
   | _ -> failwith "bad cfg line"
@@ -136,6 +136,15 @@ let parse_op toks : string * op * string =
     let (ipbs, rest) = take_list rest in
     ("calc", OCalc (z u, es, ipbs), L.hd rest)
   | "handover" :: b :: d :: dint :: res :: [] -> ("handover", OHandOver (z b, z d, z dint), res)
+  | "aucbid" :: b :: d :: res :: [] -> ("aucbid", OAucBid (z b, z d), res)
+  | "aucclose" :: b :: tg :: ow :: back :: res :: [] -> ("aucclose", OAucClose (z b, z tg, z ow, z back), res)
+  | "repaywithdraw" :: u :: b :: rest ->
+    let (e, rest) = take_biter rest in
+    (match rest with
+     | ipb :: res :: [] -> ("repaywithdraw", ORepayWithdraw (z u, z b, e, z ipb), res)
+     | _ -> failwith "repaywithdraw")
+  | "fundmod" :: u :: p :: a :: d :: amt :: res :: [] -> ("fundmod", OFundMod (z u, z p, z a, z d, z amt), res)
+  | "fundreserve" :: u :: a :: d :: amt :: res :: [] -> ("fundreserve", OFundReserve (z u, z a, z d, z amt), res)
   | "setprice" :: a :: "-" :: res :: [] -> ("setprice", OSetPrice (z a, None), res)
   | "setprice" :: a :: p :: res :: [] -> ("setprice", OSetPrice (z a, Some (z p)), res)
   | _ -> failwith ("bad op: " ^ S.concat " " toks)
@@ -183,6 +192,34 @@ let run (path : string) =
           | _ -> ())
        | _ -> ())
     end;
+    (match o with
+     | OAucClose (j, target, _, _) when res = "ok" ->
+       interesting := true;
+       (match zget pre.borrows j with
+        | Some b0 ->
+          bump (if b0.b_brd = BinNums.Z0 then "close:same_pool" else "close:cross_pool");
+          (match zget !cfg.c_pairs b0.b_pair with Some pr when pr.pr_emode -> bump "close:emode" | _ -> ());
+          (match zget pre.lends b0.b_lend with None -> bump "close:lend_record_deleted_at_handover" | Some _ -> ())
+        | None -> ());
+       (* the auction's target debt is the one the hand-over computed *)
+       if not (holds_C08_target !cfg pre j target) then
+         predfail ~case:!case ~step:!step ~pred:"holds_C08_target" ~kf:"none" ~detail:kind;
+       (* the position is gone: not in the books, not in the published ids, not in the user mapping *)
+       if zget obs.borrows j <> None then
+         predfail ~case:!case ~step:!step ~pred:"holds_C08_closed_gone" ~kf:"none" ~detail:kind;
+       (* the close rule: the pools receive what the close books and forwards *)
+       let k3 = kf_C08_3 !cfg pre o in
+       if k3 then bump "kf_C08_3:close_books_more_than_recovered";
+       if not (holds_C08_close !cfg pre obs j) then
+         predfail ~case:!case ~step:!step ~pred:"holds_C08_close" ~kf:(if k3 then "kf_C08_3" else "none") ~detail:kind
+       else bump "close:pool_receives_what_is_booked"
+     | OAucClose (j, _, _, _) ->
+       bump ("close_failed:" ^ res);
+       (match zget pre.borrows j with
+        | Some b0 when b0.b_brd <> BinNums.Z0 && zget pre.lends b0.b_lend = None -> bump "C10-F7:cross_pool_close_stuck_lend_record_deleted"
+        | _ -> ())
+     | OAucBid (_, d) -> bump ("aucbid:" ^ zs d)
+     | _ -> ());
     if not (holds_C08_lend obs) then
       predfail ~case:!case ~step:!step ~pred:"holds_C08_lend" ~kf:(if !tainted then "kf_C08_2" else "none") ~detail:("after_" ^ kind);
     if not (holds_C08_borrow !cfg obs) then
